@@ -2369,3 +2369,30 @@ def register_misc19(E):
 _old_register_all28=register_all
 def register_all(E):
     _old_register_all28(E); register_misc19(E)
+
+# ---- explicit panics: panic!(), assert!(), unreachable!(), todo!() ... all end in one of these
+def m_explicit_panic(e,run,a,f):
+    msg=''
+    try:
+        if a: msg=bytes(x for x in byte_list(a[0]) if isinstance(x,int)).decode(errors='replace')
+    except Exception: msg=''
+    raise Panic('explicit panic (%s): %s'%(strip_t(f)[-40:],msg[:80]),'explicit')
+def register_misc20(E):
+    E.model(r'^(core::panicking::|std::panicking::|std::rt::)?(panic|panic_fmt|panic_explicit|panic_display|panic_str|panic_str_2015|begin_panic|begin_panic_fmt|panic_nounwind|unreachable_display|assert_failed|assert_failed_inner|panic_cold_explicit|panic_cold_display)$',m_explicit_panic)
+    E.model(r'^(core::panicking::)?panic_const::[a-z_0-9]+$',m_explicit_panic)
+_old_register_all29=register_all
+def register_all(E):
+    _old_register_all29(E); register_misc20(E)
+
+# ---- HashMap / BTreeMap / HashSet from an array of pairs
+def m_map_from_array(e,run,a,f):
+    src=deref(a[0]); ordered='BTreeMap' in f.split(' as ')[0]
+    m=MapO(ordered)
+    for it in (src.items if isinstance(src,VecO) else src.f):
+        t=deref(it); map_insert(run,m,t.f[0],t.f[1])
+    return m
+def register_misc21(E):
+    E.model(r'^<(std::collections::)?(HashMap|BTreeMap)<.*> as From<\[\(.*\); \d+\]>>::from$',m_map_from_array)
+_old_register_all30=register_all
+def register_all(E):
+    _old_register_all30(E); register_misc21(E)
